@@ -46,7 +46,12 @@ def run(ctx):
         loops = [lp for lp in s.loops if lp.func == fc.qualname]
         ok = False
         why = "no grouping loop"
-        if len(loops) == 1:
+        want_flat = tm.join(" ", [tm.idx(WL, tm.binop("band", tm.binop("shr", E, 11 * i), 0x7FF)) for i in reversed(range(nwords))])
+        if tm.veq(val, want_flat):
+            ok = True
+        elif not loops:
+            why = tm.first_diff(val, want_flat)[:300]
+        elif len(loops) == 1:
             lp = loops[0]
             cnt = [v for v, init in lp.init.items() if init == 0]
             lst = [v for v, init in lp.init.items() if init == []]
